@@ -8,3 +8,8 @@ THOROUGH = {"names": ["A", "B"], "objs": 3, "nvals": 2, "kids": 2, "held": 1, "s
 
 def run(ctx):
     tree.run_property(ctx, FOCUS, QUICK, THOROUGH)
+    # outside the container model: the probes of atomic.py (whole-value / children-list assignment, moves of attached
+    # children to parents of another level or version, assignments below absent children, ...), after each of which every
+    # listed element must report its lister as parent, be listed once, and share version and level with it
+    from . import atomic
+    atomic.run_probes(ctx, atomic.CONSISTENCY_CLAUSES)
